@@ -282,8 +282,8 @@ def binding_stream(R, tier):
     RES = 'res_eqb (list_eqb (pair_eqb Z.eqb Z.eqb))'
 
     def rand_tree(names, depth):
-        if depth == 0 or rng.random() < 0.25:
-            return ('v', rng.choice(names)) if names and rng.random() < 0.7 else ('c', rng.randint(-4, 4))
+        if depth == 0 or rng.random() < 0.2:
+            return ('v', rng.choice(names)) if names and rng.random() < 0.8 else ('c', rng.randint(-4, 4))
         k = rng.choice('++-**n')
         if k == 'n':
             return ('n', rand_tree(names, depth - 1))
@@ -306,14 +306,14 @@ def binding_stream(R, tier):
         alg = algs.make_impl(spec)
         canon = list(alg.canon2bin.values())
         ks = rng.sample(canon, rng.randint(1, min(len(canon), 4)))
-        pool = rng.sample(CALL_NAMES, rng.choice((0, 1, 2, 3, 3, 4, 5)))
+        pool = rng.sample(CALL_NAMES, rng.choice((0, 1, 2, 3, 3, 4, 4, 5, 6)))
         if pool and rng.random() < 0.3:                  # names that are prefixes / case variants of one another
             base = rng.choice(pool)
             pool += [nm for nm in (base + '_', base + '0', base.swapcase(), base + base) if nm not in pool and nm.isidentifier()][:rng.randint(1, 2)]
         syms = {nm: sympy.Symbol(nm) for nm in pool}
         values, trees = [], []
         for k in ks:
-            t = rand_tree(pool, rng.randint(0, 3))
+            t = rand_tree(pool, rng.choice((0, 1, 2, 2, 3, 3)))
             v = to_sympy(t, syms)
             if v.is_Integer and rng.random() < 0.5:
                 v = int(v)                               # a python number: no free_symbols attribute
@@ -415,8 +415,16 @@ def binding_stream(R, tier):
             else:
                 expect = oc.err_term(got[1])
             cases.append({'check': f'{RES} ({call}) ({expect})', 'show': f'({call}, sorted_names (free_symbols {mvdef}))', 'defs': defs,
+                          'raises': f'match {call} with Err _ => true | Ok _ => false end' if got[0] == 'err' else None,
                           'meta': dict(rep, desc=desc, got=str(got[1])[:300], kind=kind)})
     bad, shown = kv.run_cases('C12call', cases, imports='Model.All Model.Call')
+    # both raise, different exception classes: finer than the property (it does not name the exceptions) - a fidelity note
+    both = [i for i in bad if cases[i]['raises']]
+    if both:
+        still, _ = kv.run_cases('C12callerr', [{'check': cases[i]['raises'], 'defs': cases[i]['defs']} for i in both], imports='Model.All Model.Call')
+        finer = {both[j] for j in range(len(both)) if j not in set(still)}
+        R.fidelity_notes += len(finer)
+        bad = [i for i in bad if i not in finer]
     for i in bad:
         m = cases[i]['meta']
         R.violation({'clause': 'call-model-' + m['kind']}, {k: m[k] for k in ('algebra', 'keys', 'values', 'args', 'keywords', 'kind')},
